@@ -229,8 +229,10 @@ def table_file(case):
         nt = case["mdtype"]
         ptype = ("datetime" if nt.startswith("datetime") else "bytes" if nt == "object" and ct not in ("UTF8", "JSON")
                  else "unicode" if nt == "object" else nt.lower() if nt[:1].isupper() and case["md"] != "nullable" else nt)
+        if case["md"] == "tz":
+            ptype = "datetimetz"
         kv["pandas"] = json.dumps({"columns": [{"name": "x", "field_name": "x", "pandas_type": ptype, "numpy_type": nt,
-                                                "metadata": None}],
+                                                "metadata": ({"timezone": "UTC"} if case["md"] == "tz" else None)}],
                                    "index_columns": [], "column_indexes": [], "pandas_version": "2.0.0",
                                    "creator": {"library": "other", "version": "1"}, "partition_columns": []})
     return PW.build_file({"created_by": "parquet-mr version 1.12.0", "kv": kv, "schema": [node], "row_groups": rgs})
